@@ -259,6 +259,9 @@ func Harness_C08_subs_2()        { harnessC08(2, -1, false) }
 func Harness_C08_setdesc()       { harnessC08(2, verifOp8SetDesc, true) }
 func Harness_C08_settags()       { harnessC08(2, verifOp8SetTags, true) }
 func Harness_C08_delmsg()        { harnessC08(2, verifOp8DelMsg, true) }
+// fault-free variants (cheaper): an acknowledged permission change is in the live table and in the store alike
+func Harness_C08_setother() { harnessC08(2, verifOpSetOther, false) }
+func Harness_C08_setself()  { harnessC08(2, verifOpSetSelf, false) }
 func Harness_C08_setself_fault() { harnessC08(2, verifOpSetSelf, true) }
 func Harness_C08_setother_fault() { harnessC08(2, verifOpSetOther, true) }
 func Harness_C08_sub_fault()     { harnessC08(2, verifOpSub, true) }
